@@ -449,7 +449,7 @@ ITER_GHOST = """    pub closed spec fn inp(&self) -> RView { self.input.rv() }
     }
     /// ghost: the view of the remaining section that starts at section offset `off` (where an entry reported by `next` begins)
     pub open spec fn from_offset(&self, off: usize) -> RView {
-        rv_from(self.inp(), self.s_section().sec().start + off, self.inp().end())
+        rv_from(self.inp(), self.s_section().sec().start + off as nat, self.inp().end())
     }"""
 
 
@@ -554,7 +554,7 @@ def group2d(ctx, sk):
               requires=[f'{O}.wf()'],
               ensures=[
                   f'{F}.wf() && {F}.s_section() == {O}.s_section() && {F}.s_bases() == {O}.s_bases()',
-                  f'[C01:iter-empty] {O}.inp().len == 0 ==> res matches Ok(None) && {F}.inp() == {O}.inp()',
+                  f'[C01:iter-empty] {O}.inp().len == 0 ==> (res matches Ok(None)) && {F}.inp() == {O}.inp()',
                   f'[C01:iter-err-empties] res is Err ==> {F}.inp().len == 0',
                   f'[C01:iter-progress] res matches Ok(Some(e)) ==> {F}.inp().len < {O}.inp().len && within({O}.inp(), {F}.inp())',
                   f'[C01:iter-none-final] res matches Ok(None) ==> {F}.inp().len == 0',
@@ -570,12 +570,149 @@ def group2d(ctx, sk):
     sk.add(M, it)
 
 
+HDR_GHOST = """    pub closed spec fn s_address_size(&self) -> u8 { self.address_size }
+    pub closed spec fn s_section(&self) -> RView { self.section.rv() }
+    pub closed spec fn s_eh_frame_ptr(&self) -> Pointer { self.eh_frame_ptr }
+    pub closed spec fn s_fde_count(&self) -> u64 { self.fde_count }
+    pub closed spec fn s_table_enc(&self) -> u8 { self.table_enc.0 }
+    pub closed spec fn s_table(&self) -> RView { self.table.rv() }
+    /// ghost: established by EhFrameHdr::parse, relied on by the table methods
+    pub closed spec fn wf(&self) -> bool {
+        valid_address_size(self.address_size) && inside(self.section.rv(), self.table.rv()) && pe_valid(self.table_enc.0)
+    }"""
+
+HDR_SPEC = """
+/// `.eh_frame_hdr` (LSB 10.6.2): version 1, three encoding bytes, eh_frame_ptr, fde_count, then the search table
+pub closed spec fn hdr_is<R: Reader<Offset = usize>>(h: ParsedEhFrameHdr<R>, b: RView, bases: &BaseAddresses, asz: u8) -> bool {
+    let e1 = b.at(1); let e2 = b.at(2); let e3 = b.at(3);
+    let pbs = sb(&bases.eh_frame_hdr, None);
+    let r1 = rv_adv(b, 4);
+    let s1 = pe_size(r1, pe_format(e1), asz);
+    let r2 = rv_adv(r1, s1);
+    b.len >= 4 && b.at(0) == 1 && pe_valid(e1) && pe_valid(e2) && pe_valid(e3) && !pe_omit(e1)
+    && h.address_size == asz && h.section.rv() == b && h.table_enc.0 == e3
+    // eh_frame_ptr: encoded pointer right after the four header bytes (a pc-relative one is relative to its own position, 4)
+    && (pe_base(pe_app(e1), pbs, 4, asz) matches Some(base) && ptr_is(h.eh_frame_ptr, e1, pe_ptr(base, pe_val(r1, pe_format(e1), asz), asz)))
+    && 4 + s1 <= b.len
+    // fde_count: absent (0, no table) if its encoding or the table encoding is omit; otherwise a plain value
+    && (if pe_omit(e2) || pe_omit(e3) { h.fde_count == 0 && h.table.rv() == r2 }
+        else { e2 == pe_format(e2) && h.fde_count as int == twos64(pe_val(r2, e2, asz)) && pe_size(r2, e2, asz) <= r2.len && h.table.rv() == rv_adv(r2, pe_size(r2, e2, asz)) })
+}
+/// size of one field of a table row for the fixed-size encodings the table supports (None: not binary-searchable)
+pub open spec fn hdr_field_size(enc: u8) -> Option<nat> {
+    let f = pe_format(enc);
+    if f == 2 || f == 0xa { Some(2nat) } else if f == 3 || f == 0xb { Some(4nat) } else if f == 4 || f == 0xc { Some(8nat) } else { None }
+}
+/// decoded pointer stored at the read position of `t` (a view into the .eh_frame_hdr section `sec`)
+pub open spec fn hdr_ptr_at(t: RView, enc: u8, bases: &BaseAddresses, sec: RView, asz: u8) -> Option<int> {
+    match pe_base(pe_app(enc), sb(&bases.eh_frame_hdr, None), (t.start - sec.start) as nat, asz) {
+        Some(base) => Some(pe_ptr(base, pe_val(t, pe_format(enc), asz), asz)),
+        None => None,
+    }
+}
+"""
+
+TAB_GHOST = """    pub closed spec fn s_hdr(&self) -> &ParsedEhFrameHdr<R> { self.hdr }"""
+
+HITER_GHOST = """    pub closed spec fn s_hdr(&self) -> &ParsedEhFrameHdr<R> { self.hdr }
+    pub closed spec fn s_table(&self) -> RView { self.table.rv() }
+    pub closed spec fn s_bases(&self) -> &BaseAddresses { self.bases }
+    pub closed spec fn s_remain(&self) -> u64 { self.remain }
+    pub closed spec fn wf(&self) -> bool { self.hdr.wf() && inside(self.hdr.section.rv(), self.table.rv()) }"""
+
+
+def group3(ctx, sk):
+    cfi = Source('read/cfi.rs', ctx)
+    M = 'read::cfi'
+    sk.add(M, cfi.item(r'^pub struct EhFrameHdr<R: Reader>').clean(rejrec=['R']))
+    sk.add(M, cfi.item(r'^pub struct ParsedEhFrameHdr<R: Reader>').clean(rejrec=['R']))
+    sk.add(M, cfi.item(r"^pub struct EhHdrTableIter<'a, 'bases, R: Reader>").clean(rejrec=['R']))
+    sk.add(M, cfi.item(r"^pub struct EhHdrTable<'a, R: Reader>").clean(rejrec=['R']))
+    sk.add(M, HDR_SPEC, label='ghost(eh_frame_hdr)')
+
+    B = 'self.0.rv()'
+    hp = cfi.item(r'^impl<R: Reader> EhFrameHdr<R> \{', label='EhFrameHdr')
+    hp.custom('R-CLONE', 'let mut reader = self.0.clone();', 'let mut reader = reader_clone(&self.0);')
+    hp.custom('R-CLONE', 'section: self.0.clone(),', 'section: reader_clone(&self.0),')
+    hp.clean().own(OWN)
+    hp.insert_members('    pub closed spec fn data(&self) -> RView { self.0.rv() }')
+    hp.splice('parse', ret='res', canary=True,
+              requires=['[C01:address-size-config] valid_address_size(address_size)'],
+              ensures=[
+                  '[C05:hdr-fields][C10:view] res matches Ok(h) ==> hdr_is(h, self.data(), bases, address_size) && h.wf()',
+                  '[C05:hdr-version] self.data().len >= 1 && self.data().at(0) != 1 ==> res is Err',
+                  '[C05:hdr-encodings] self.data().len >= 4 && (!pe_valid(self.data().at(1)) || !pe_valid(self.data().at(2)) || !pe_valid(self.data().at(3)) || pe_omit(self.data().at(1))) ==> res is Err',
+                  '[C05:hdr-count-encoding] self.data().len >= 4 && !pe_omit(self.data().at(2)) && !pe_omit(self.data().at(3)) && self.data().at(2) >= 16 ==> res is Err'])
+    sk.add(M, hp)
+
+    ph = cfi.item(r'^impl<R: Reader> ParsedEhFrameHdr<R> \{', label='ParsedEhFrameHdr').clean().own(OWN)
+    ph.insert_members(HDR_GHOST)
+    ph.splice('eh_frame_ptr', ret='res', ensures=['[C05:hdr-accessor] res == self.s_eh_frame_ptr()'])
+    ph.splice('table', ret='res', ensures=['[C05:hdr-table] (res matches Some(t) ==> t.s_hdr() == self) && (res is Some <==> self.s_fde_count() != 0)'])
+    sk.add(M, ph)
+
+    # ---- EhHdrTableIter
+    O, F = 'old(self)', 'final(self)'
+    hi = cfi.item(r"^impl<'a, 'bases, R: Reader> EhHdrTableIter<'a, 'bases, R> \{", label='EhHdrTableIter').clean().own(OWN)
+    hi.insert_members(HITER_GHOST)
+    ROW = (f'({{ let h = {O}.s_hdr(); let t = {O}.s_table(); let e = h.s_table_enc(); let asz = h.s_address_size(); '
+           f'let s1 = pe_size(t, pe_format(e), asz); let t1 = rv_adv(t, s1); let s2 = pe_size(t1, pe_format(e), asz); '
+           f'(hdr_ptr_at(t, e, {O}.s_bases(), h.s_section(), asz) matches Some(a) && ptr_is(p.0, e, a)) && '
+           f'(hdr_ptr_at(t1, e, {O}.s_bases(), h.s_section(), asz) matches Some(a) && ptr_is(p.1, e, a)) && '
+           f's1 + s2 <= t.len && {F}.s_table() == rv_adv(t1, s2) }})')
+    KEEP = f'{F}.wf() && {F}.s_hdr() == {O}.s_hdr() && {F}.s_bases() == {O}.s_bases()'
+    hi.splice('next', ret='res', canary=True, requires=[f'{O}.wf()'],
+              ensures=[KEEP,
+                       f'[C01:iter-empty] {O}.s_remain() == 0 ==> (res matches Ok(None)) && {F}.s_table() == {O}.s_table() && {F}.s_remain() == 0',
+                       f'[C01:iter-progress] {O}.s_remain() > 0 ==> {F}.s_remain() == {O}.s_remain() - 1 && !(res matches Ok(None))',
+                       f'[C01:frame] within({O}.s_table(), {F}.s_table())',
+                       f'[C05:hdr-row] res matches Ok(Some(p)) ==> {ROW}'])
+    hi.splice('nth', ret='res', canary=True, requires=[f'{O}.wf()'],
+              ensures=[KEEP,
+                       f'[C01:iter-progress] {F}.s_remain() <= {O}.s_remain() && ({O}.s_remain() > n && !(res matches Ok(None)) ==> {F}.s_remain() == {O}.s_remain() - n - 1)',
+                       f'[C01:frame] within({O}.s_table(), {F}.s_table())',
+                       f'[C05:hdr-nth] res matches Ok(Some(p)) ==> (hdr_field_size({O}.s_hdr().s_table_enc()) matches Some(sz) && '
+                       f'n < {O}.s_remain() && {F}.s_remain() == {O}.s_remain() - n - 1 && '
+                       f'(hdr_ptr_at(rv_adv({O}.s_table(), 2 * sz * n as nat), {O}.s_hdr().s_table_enc(), {O}.s_bases(), {O}.s_hdr().s_section(), {O}.s_hdr().s_address_size()) matches Some(a) && ptr_is(p.0, {O}.s_hdr().s_table_enc(), a)) && '
+                       f'(hdr_ptr_at(rv_adv({O}.s_table(), 2 * sz * n as nat + sz), {O}.s_hdr().s_table_enc(), {O}.s_bases(), {O}.s_hdr().s_section(), {O}.s_hdr().s_address_size()) matches Some(a) && ptr_is(p.1, {O}.s_hdr().s_table_enc(), a)))'])
+    sk.add(M, hi)
+
+    # ---- EhHdrTable
+    ht = cfi.item(r"^impl<'a, R: Reader \+ 'a> EhHdrTable<'a, R> \{", label='EhHdrTable')
+    ht.drop(['fde_for_address', 'unwind_info_for_address'])   # group 4 / batch cfi_unwind
+    ht.custom('R-CLONE', 'table: self.hdr.table.clone(),', 'table: reader_clone(&self.hdr.table),')
+    ht.custom('R-CLONE', 'let mut reader = self.hdr.table.clone();', 'let mut reader = reader_clone(&self.hdr.table);')
+    ht.custom('R-CLONE', 'let tail = reader.clone();', 'let tail = reader_clone(&reader);')
+    ht.clean().own(OWN)
+    ht.insert_members(TAB_GHOST)
+    ht.splice('iter', ret='res', requires=['self.s_hdr().wf()'],
+              ensures=['[C05:hdr-iter] res.wf() && res.s_hdr() == self.s_hdr() && res.s_bases() == bases && res.s_remain() == self.s_hdr().s_fde_count() && res.s_table() == self.s_hdr().s_table()'])
+    H = 'self.s_hdr()'
+    ht.splice('lookup', ret='res', canary=True, requires=[f'{H}.wf()'],
+              ensures=[
+                  f'[C05:lookup-encoding] hdr_field_size({H}.s_table_enc()) is None ==> res is Err',
+                  f'[C05:lookup-row][C10:view] res matches Ok(p) ==> (hdr_field_size({H}.s_table_enc()) matches Some(sz) && '
+                  f'(exists|j: nat| j < vstd::math::max({H}.s_fde_count() as int, 1) && 2 * sz * j + 2 * sz <= {H}.s_table().len && '
+                  f'(#[trigger] hdr_ptr_at(rv_adv({H}.s_table(), 2 * sz * j + sz), {H}.s_table_enc(), bases, {H}.s_section(), {H}.s_address_size()) matches Some(a) && ptr_is(p, {H}.s_table_enc(), a))))'],
+              loops={0: 'invariant self.hdr.wf(), size == 2 || size == 4 || size == 8, row_size == 2 * size, hdr_field_size(self.hdr.table_enc.0) == Some(size as nat), '
+                        'pe_params_ok(&parameters, reader.rv()), parameters.address_size == self.hdr.address_size, parameters.bases == &bases.eh_frame_hdr, parameters.func_base is None, parameters.section == &self.hdr.section, '
+                        'inside(self.hdr.table.rv(), reader.rv()), len <= vstd::math::max(self.hdr.fde_count as int, 1), '
+                        '(reader.rv().start - self.hdr.table.rv().start) % (row_size as int) == 0, '
+                        '(reader.rv().start - self.hdr.table.rv().start) / (row_size as int) + len <= vstd::math::max(self.hdr.fde_count as int, 1),\n decreases len'})
+    PT = 'ptr'
+    ht.splice('pointer_to_offset', ret='res', requires=[f'{H}.wf()'],
+              ensures=[f'[C05:ptr-to-offset] res matches Ok(o) ==> (ptr matches Pointer::Direct(p) && {H}.s_eh_frame_ptr() matches Pointer::Direct(e) && p >= e && o.0 == p - e)',
+                       f'[C05:ptr-to-offset-indirect] ptr is Indirect || {H}.s_eh_frame_ptr() is Indirect ==> res is Err'])
+    sk.add(M, ht)
+
+
 def populate(ctx, sk):
     group1(ctx, sk)
     group2(ctx, sk)
     group2b(ctx, sk)
     group2c(ctx, sk)
     group2d(ctx, sk)
+    group3(ctx, sk)
     return sk
 
 
